@@ -23,6 +23,7 @@ CLASSES = {
     "other-bank-reads": (dict(V, cmds=[["R", 0], ["W", 0], ["R", 1], ["W", 1]]), adv([["R", 2]])),
     "other-bank-writes": (dict(V, cmds=[["R", 0], ["W", 0], ["R", 1], ["W", 1]]), adv([["W", 2]])),
     "other-bank-altrows-writes": (dict(V, cmds=[["R", 0], ["W", 1]]), adv([["W", 2], ["W", 3]])),
+    "other-bank-altrows-writes-1victim": (dict(V, cmds=[["R", 0]]), adv([["W", 2], ["W", 3]])),
     "other-bank-mixed": (dict(V, cmds=[["R", 0], ["W", 1]]), adv([["W", 2], ["R", 3]], idle=True)),
     "same-bank-gap3": (dict(V, cmds=[["R", 0], ["W", 0], ["R", 1], ["W", 1]]), adv([["R", 0]], gap=3)),
     "same-bank-gap4-writes": (dict(V, cmds=[["R", 0], ["W", 1]]), adv([["W", 1]], gap=4)),
@@ -51,7 +52,7 @@ def configs(tier):
         add("sdr-noap-norefresh", "other-bank-altrows-writes", refresh=False, ap=False, **SDR)
         add("sdr-refresh", "other-bank-writes", refresh=True, **SDR)
         add("sdr-refresh", "same-bank-gap3", refresh=True, **SDR)
-        add("sdr-refresh", "other-bank-altrows-writes", refresh=True, **SDR)
+        add("sdr-refresh", "other-bank-altrows-writes-1victim", refresh=True, **SDR)
         add("sdr-tccd2-norefresh", "other-bank-reads", refresh=False, timing=dict(tCCD=2), **SDR)
         add("sdr-tccd2-norefresh", "other-bank-writes", refresh=False, timing=dict(tCCD=2), **SDR)
         add("ddr3x4-norefresh", "other-bank-altrows-writes", refresh=False, **DDR3)
